@@ -324,6 +324,7 @@ package decimal
 //@   ensures[valid,C08] valid(z)
 //@   ensures[rounded,C01,C02] prec != 0 && old(z.form) == finite && z.prec < old(z.prec) ==> rounded(z, old(V(z.mant)), old(len(z.mant)), old(z.exp), false)
 //@   ensures[exact,C01,C02] prec != 0 && old(z.form) == finite && z.prec >= old(z.prec) ==> z.acc == 0 && z.form == finite && z.exp == old(z.exp) && z.mant == old(z.mant)
+//@   hint[ret] old(z.form) == finite && 19*len(z.mant) > z.prec && z.prec >= old(z.prec) ==> mod_p10_down(z.mant[0], 19*len(z.mant) - old(z.prec), 19*len(z.mant) - z.prec)
 
 // ---------------------------------------------------------------------------
 // Comparison
